@@ -216,6 +216,45 @@ Theorem C13_every_cell_is_member : forall r0 c0 h w row col,
 Proof. exact every_cell_is_member. Qed.
 Print Assumptions C13_every_cell_is_member.
 
+(* all member cells together: the h x w matrix of the fitted elements, blanks as 0 *)
+Theorem C13_members_matrix : forall rows C h w,
+  rows <> [] -> (1 <= C)%nat -> rectangular C rows -> all_scalar rows -> 1 <= h -> 1 <= w ->
+  exists M, cse_members h w (matrix rows) = Ok (matrix M)
+            /\ length M = Z.to_nat h /\ rectangular (Z.to_nat w) M
+            /\ forall i j, (i < Z.to_nat h)%nat -> (j < Z.to_nat w)%nat ->
+                           elem2 M i j = Some (blank0 (fit_elem rows i j)).
+Proof. exact members_matrix. Qed.
+Print Assumptions C13_members_matrix.
+
+(* which range of the sheet is an array formula's range (_OpxRange.__new__):
+   the reference range read back is; a range not starting at member (1, 1) is
+   evaluated cell by cell *)
+Theorem C13_range_formula_own : forall f h w, 1 <= h -> 1 <= w ->
+  range_formula (sheet_rows f h w) = Some f.
+Proof. exact range_formula_own. Qed.
+Print Assumptions C13_range_formula_own.
+Theorem C13_range_formula_inner : forall f i j h w row rest,
+  (i, j) <> (1, 1) -> range_formula ((Member f (i, j, h, w) :: row) :: rest) = None.
+Proof. exact range_formula_inner. Qed.
+Print Assumptions C13_range_formula_inner.
+
+(* PARTIAL: evaluating the reference range gives at every position what the
+   member cell there shows (a blank as 0 in the cell).  The full statement —
+   EVERY range of the sheet shows its cells' own values — is refuted:
+   Refuted/C13_adjacent_ranges.v (a range running from one array formula's top
+   left into an adjacent array formula with the same text is evaluated as ONE
+   array formula) *)
+Theorem C13_range_shows_members_partial : forall f rows C h w,
+  rows <> [] -> (1 <= C)%nat -> rectangular C rows -> all_scalar rows -> 1 <= h -> 1 <= w ->
+  range_formula (sheet_rows f h w) = Some f /\
+  exists out M, cse_range_value h w (matrix rows) = Ok (matrix out)
+                /\ cse_members h w (matrix rows) = Ok (matrix M)
+                /\ length M = Z.to_nat h /\ rectangular (Z.to_nat w) M
+                /\ forall i j, (i < Z.to_nat h)%nat -> (j < Z.to_nat w)%nat ->
+                     exists e, elem2 out i j = Some e /\ elem2 M i j = Some (blank0 e).
+Proof. exact range_shows_members_partial. Qed.
+Print Assumptions C13_range_shows_members_partial.
+
 (* ---- the whole clause for operators: the formula =l o r entered over an
    h x w target (no scalar operand is an error).  The member stamped (i, j)
    shows the scalar operator's value x on the operands' elements at the
